@@ -23,11 +23,11 @@ func propC20() *Property {
 			"readme.md's 'Media Hook' section is the documentation of the placeholders",
 		},
 		Rules: []Rule{
-			{ID: "C20.R1", Title: "single exec site, no shell as program", Floor: 2, Run: c20R1},
-			{ID: "C20.R2", Title: "argv is a private copy of the configured hook", Floor: 4, Run: c20R2},
-			{ID: "C20.R3", Title: "argument-wise exact-match substitution by identity", Floor: 9, Run: c20R3},
-			{ID: "C20.R4", Title: "stdin fallback only without %url, carrying the link", Floor: 2, Run: c20R4},
-			{ID: "C20.R5", Title: "media type is non-nil at every external open", Floor: 4, Run: c20R5},
+			{ID: "C20.R1", Title: "single exec site, no shell as program", Floor: 1, Run: c20R1},
+			{ID: "C20.R2", Title: "argv is a private copy of the configured hook", Floor: 2, Run: c20R2},
+			{ID: "C20.R3", Title: "argument-wise exact-match substitution by identity", Floor: 7, Run: c20R3},
+			{ID: "C20.R4", Title: "stdin fallback only without %url, carrying the link", Floor: 1, Run: c20R4},
+			{ID: "C20.R5", Title: "media type is non-nil at every external open", Floor: 2, Run: c20R5},
 		},
 	}
 }
